@@ -62,7 +62,7 @@ def c01 (op : String) (args : List Sexp) : Verdict :=
 def decodeRecords (a : ASchema) : Nat → Bytes → Option (List Value × Bytes)
   | 0, bs => some ([], bs)
   | n + 1, bs =>
-    match decode bigFuel a bs with
+    match (decode bigFuel a bs).toOption with
     | none => none
     | some (v, r) =>
       match decodeRecords a n r with
